@@ -169,7 +169,17 @@ class World:
         if k == "PTuple":
             if not (isinstance(v, tuple) and v[0] == "T" and len(v[1]) == len(p["elems"])):
                 raise Unsupported("tuple pattern against %r" % (v,))
-            return all(self.bind(q, x, env, uses) for q, x in zip(p["elems"], v[1]))
+            # a tuple pattern fails as soon as one element definitely fails, whatever the others are
+            pending = None
+            for q, x in zip(p["elems"], v[1]):
+                try:
+                    if not self.bind(q, x, env, uses):
+                        return False
+                except Unsupported as ex:
+                    pending = ex
+            if pending is not None:
+                raise pending
+            return True
         if k == "POr":
             for c in p["cases"]:
                 e2 = dict(env)
@@ -343,6 +353,13 @@ class World:
             m = e["method"]
             if m in ("clone", "to_owned", "borrow", "as_ref") and not args:
                 return recv
+            if isinstance(recv, tuple) and recv and recv[0] == "O":
+                if len(recv) > 2 and m in dict(recv[2]):
+                    return dict(recv[2])[m]
+                return ("O", "%s.%s" % (recv[1], m))
+            opt = self.option_method(recv, m, args, uses)
+            if opt is not NotImplemented:
+                return opt
             ty = self.type_of(recv)
             if (ty, m) in self.methods:
                 return self.call_fn(self.methods[(ty, m)][0], [recv] + args)
@@ -360,6 +377,17 @@ class World:
             if m == "into" and not args:
                 raise Unsupported("into")
             raise Unsupported("method %s on %s" % (m, ty))
+        if k == "Closure":
+            return ("C", e, dict(env))
+        if k == "Paren":
+            return self.eval(e["e"], env, uses)
+        if k == "Try":
+            v = self.eval(e["e"], env, uses)
+            if v == NONE:
+                raise ReturnEx(NONE)
+            if isinstance(v, tuple) and v[0] == "S" and v[1] == "Some":
+                return v[2][0]
+            raise Unsupported("`?` on %r" % (v,))
         if k == "Field":
             b = self.eval(e["base"], env, uses)
             if isinstance(b, tuple) and b[0] == "S":
@@ -381,6 +409,62 @@ class World:
             vals = {f["name"]: self.eval(f["e"], env, uses) for f in e["fields"]}
             return S(name, *[vals[n] for n in names])
         raise Unsupported("expression " + k + ": " + render(e)[:80])
+
+    def apply(self, f, args, uses):
+        if isinstance(f, tuple) and f[0] == "C":
+            cl, cenv = f[1], dict(f[2])
+            if len(cl["inputs"]) != len(args):
+                raise Unsupported("closure arity")
+            for p, a in zip(cl["inputs"], args):
+                while p["k"] in ("PType",):
+                    p = p["pat"]
+                if not self.bind(p, a, cenv, uses):
+                    raise Unsupported("refutable closure parameter")
+            try:
+                return self.eval(cl["body"], cenv, uses)
+            except ReturnEx as r:
+                return r.v
+        raise Unsupported("call of a non-closure")
+
+    def option_method(self, recv, m, args, uses):
+        """Option combinators on evaluated values (closures are values)"""
+        is_some = isinstance(recv, tuple) and recv[0] == "S" and recv[1] == "Some"
+        is_none = recv == NONE
+        if not (is_some or is_none):
+            return NotImplemented
+        inner = recv[2][0] if is_some else None
+        if m == "zip" and len(args) == 1:
+            o = args[0]
+            if is_some and isinstance(o, tuple) and o[0] == "S" and o[1] == "Some":
+                return S("Some", ("T", (inner, o[2][0])))
+            if is_none or o == NONE:
+                return NONE
+            return NotImplemented
+        if m == "map" and len(args) == 1:
+            return S("Some", self.apply(args[0], [inner], uses)) if is_some else NONE
+        if m == "and_then" and len(args) == 1:
+            return self.apply(args[0], [inner], uses) if is_some else NONE
+        if m == "filter" and len(args) == 1:
+            return recv if is_some and self.truth(self.apply(args[0], [inner], uses)) else NONE
+        if m == "unwrap_or" and len(args) == 1:
+            return inner if is_some else args[0]
+        if m == "unwrap_or_else" and len(args) == 1:
+            return inner if is_some else self.apply(args[0], [], uses)
+        if m == "map_or" and len(args) == 2:
+            return self.apply(args[1], [inner], uses) if is_some else args[0]
+        if m == "or" and len(args) == 1:
+            return recv if is_some else args[0]
+        if m == "is_some" and not args:
+            return is_some
+        if m == "is_none" and not args:
+            return is_none
+        if m in ("copied", "cloned", "as_ref", "as_deref") and not args:
+            return recv
+        if m in ("unwrap", "expect"):
+            if is_some:
+                return inner
+            raise Unsupported("unwrap of None reached")
+        return NotImplemented
 
     file_uses = ()
 
